@@ -51,8 +51,35 @@ def lit(rng, v):
     return str(v)
 
 
+FILLERS = [("NOP()", 1), ("INC(R1, 1)", 1), ("SET(R2, 5)", 2), ("CMP(R1, R2)", 2), ("NEG(R3, R1)", 2),
+           ("ADD(R1, R2, R3)", 1), ("FLAGS(R1)", 2)]
+
+
+def filler(rng, n):
+    """Source lines that expand to exactly n instructions."""
+    out = []
+    while n > 0:
+        t, k = rng.choice(FILLERS)
+        if k <= n:
+            out.append(t)
+            n -= k
+    return out
+
+
+def gen_far(rng):
+    """A relative branch to a label at a boundary distance (in instructions after expansion)."""
+    d = rng.choice([-130, -129, -128, -127, -126, -2, -1, 1, 2, 126, 127, 128, 129, 130])
+    b = "%sR(far)" % rng.choice(BRANCHES)
+    pre = filler(rng, rng.choice([0, 1, 3]))
+    if d > 0:
+        return pre + [b] + filler(rng, d - 1) + ["LABEL(far)", "NOP()"]
+    return pre + ["LABEL(far)"] + filler(rng, -d) + [b, "NOP()"]
+
+
 def gen_valid(rng, n_code=None):
     """A mostly valid program as a list of source lines."""
+    if n_code is None and rng.random() < 0.08:
+        return gen_far(rng)
     consts, dlabels, labels = [], [], []
     lines = []
     names = list(NAMES[:10])
